@@ -1,6 +1,6 @@
 //! Scenario enumeration for C17 (DESIGN.md §4 C17) and the per-scenario deviation bounds.
 
-use crate::exec::{Consumer, Fault, ReqSpec, Scen};
+use crate::exec::{Consumer, Fault, Interim, ReqKind, ReqSpec, Scen};
 use crate::framing::{build, Framing, Kind, Leftover};
 use serde_json::{json, Value};
 
@@ -17,7 +17,12 @@ pub fn name(sc: &Scen) -> String {
             Leftover::Junk => "+junk",
             Leftover::Stale => "+stale",
         };
-        s.push_str(&format!("{}:{}:{}{} ", r.framing.label(), r.consumer.label(), f, l));
+        let k = if r.kind == ReqKind::Get && r.interim == Interim::None {
+            String::new()
+        } else {
+            format!("{}{}>", r.kind.label(), r.interim.label())
+        };
+        s.push_str(&format!("{}{}:{}:{}{} ", k, r.framing.label(), r.consumer.label(), f, l));
     }
     s.push_str(&format!(
         "|{}lim{}{}{}",
@@ -30,10 +35,20 @@ pub fn name(sc: &Scen) -> String {
 }
 
 fn req(framing: Framing, consumer: Consumer, fault: Fault, leftover: Leftover) -> ReqSpec {
-    ReqSpec { framing, consumer, fault, leftover }
+    ReqSpec { framing, consumer, fault, leftover, kind: ReqKind::Get, interim: Interim::None }
 }
 
-const SMALL: [Framing; 16] = [
+fn reqk(kind: ReqKind, interim: Interim, framing: Framing, consumer: Consumer, fault: Fault) -> ReqSpec {
+    ReqSpec { framing, consumer, fault, leftover: Leftover::None, kind, interim }
+}
+
+fn one(group: &str, r: ReqSpec) -> Scen {
+    Scen { group: group.into(), reqs: vec![r], concurrent: false, limit: 1, every_offset: false, alts: true }
+}
+
+const SMALL: [Framing; 18] = [
+    Framing::S426Upgrade,
+    Framing::S200Upgrade,
     Framing::Cl0,
     Framing::Cl0Close,
     Framing::S204Close,
@@ -104,7 +119,7 @@ pub fn enumerate(thorough: bool) -> (Vec<Scen>, Vec<u32>, Value) {
     }
     add_group(
         "single",
-        "1 request; 16 framings x {body(), stream} x {no close, FIN at k, reset at k for every k in 0..=response length}; every byte offset offered as read cut; + dropped/partial consumers",
+        "1 request; 18 framings x {body(), stream} x {no close, FIN at k, reset at k for every k in 0..=response length}; every byte offset offered as read cut; + dropped/partial consumers",
         single,
         if thorough { 2 } else { 1 },
         &mut scs,
@@ -186,6 +201,132 @@ pub fn enumerate(thorough: bool) -> (Vec<Scen>, Vec<u32>, Value) {
         &mut bounds,
     );
 
+    // ---- requests with bodies, Expect: 100-continue, interim responses ---------------------------
+    // (kind, interim) pairs; the first gets the full product in both tiers
+    let body_kinds_full = [(ReqKind::ExpectSized, Interim::Continue100)];
+    let body_kinds_more = [
+        (ReqKind::ExpectStream, Interim::Continue100),
+        (ReqKind::ExpectSized, Interim::None),
+        (ReqKind::ExpectStream, Interim::None),
+        (ReqKind::Sized, Interim::None),
+        (ReqKind::Stream, Interim::None),
+    ];
+    let reduced = [Framing::Cl0, Framing::Cl5, Framing::Cl5Close, Framing::Chunked, Framing::ChunkedExt, Framing::S204, Framing::H10Eof];
+    let mut body = Vec::new();
+    let mut push_all = |list: &mut Vec<Scen>, group: &str, kind: ReqKind, interim: Interim, framings: &[Framing], consumers: &[Consumer], resets: bool| {
+        for &f in framings {
+            if f.method_head() {
+                continue;
+            }
+            let r = build(f, 0, Leftover::None);
+            for &c in consumers {
+                if r.kind != Kind::Eof {
+                    list.push(one(group, reqk(kind, interim, f, c, Fault::None)));
+                }
+                for k in 0..=r.framed_len {
+                    list.push(one(group, reqk(kind, interim, f, c, Fault::Fin(k))));
+                    if resets {
+                        list.push(one(group, reqk(kind, interim, f, c, Fault::Reset(k))));
+                    }
+                }
+            }
+        }
+    };
+    for (k, i) in body_kinds_full {
+        push_all(&mut body, "single-body", k, i, &SMALL, &[Consumer::Full, Consumer::Stream], true);
+    }
+    for (k, i) in body_kinds_more {
+        if thorough {
+            push_all(&mut body, "single-body", k, i, &SMALL, &[Consumer::Full, Consumer::Stream], true);
+        } else {
+            push_all(&mut body, "single-body", k, i, &reduced, &[Consumer::Full], false);
+        }
+    }
+    for k in [ReqKind::ExpectSized, ReqKind::ExpectStream, ReqKind::Sized] {
+        for c in [Consumer::Full, Consumer::DropHead] {
+            body.push(one("single-body", reqk(k, Interim::ContinueThenClose, Framing::Cl5, c, Fault::None)));
+        }
+    }
+    add_group(
+        "single-body",
+        if thorough {
+            "1 POST; {Expect+sized, Expect+chunked} x server {100 then final, final at once, 100 then close} and {sized, chunked} bodies without Expect; 17 framings x {body(), stream} x {no close, FIN at k, reset at k for every k}; the server waits for the request body where it has to"
+        } else {
+            "1 POST; Expect+sized with '100 then final': 17 framings x {body(), stream} x {no close, FIN/reset at every k}; Expect+chunked/100, Expect final-at-once, sized and chunked bodies without Expect: 7 framings x body() x {no close, FIN at every k}; '100 then close'"
+        },
+        body,
+        if thorough { 2 } else { 1 },
+        &mut scs,
+        &mut bounds,
+    );
+
+    let mut interim = Vec::new();
+    for i in [Interim::Early103, Interim::Continue100] {
+        let (framings, consumers): (&[Framing], &[Consumer]) = if thorough || i == Interim::Early103 {
+            (&SMALL, &[Consumer::Full, Consumer::Stream])
+        } else {
+            (&reduced, &[Consumer::Full])
+        };
+        push_all(&mut interim, "single-interim", ReqKind::Get, i, framings, consumers, thorough);
+    }
+    add_group(
+        "single-interim",
+        "1 GET answered with an unsolicited interim response (103 Early Hints | 100 Continue) before the final response (one quiescent point earlier or in the same segment: choice point); framings x consumers x FIN at every k",
+        interim,
+        if thorough { 2 } else { 1 },
+        &mut scs,
+        &mut bounds,
+    );
+
+    let mut seq2b = Vec::new();
+    let firsts = [
+        (ReqKind::ExpectSized, Interim::Continue100),
+        (ReqKind::ExpectSized, Interim::None),
+        (ReqKind::ExpectStream, Interim::Continue100),
+        (ReqKind::ExpectStream, Interim::None),
+        (ReqKind::Sized, Interim::None),
+        (ReqKind::Stream, Interim::None),
+        (ReqKind::Get, Interim::Early103),
+        (ReqKind::Get, Interim::Continue100),
+        (ReqKind::Sized, Interim::Early103),
+    ];
+    for (k, i) in firsts {
+        for f in [Framing::Cl5, Framing::Chunked, Framing::Cl5Close, Framing::Cl0, Framing::S204, Framing::S426Upgrade] {
+            let r = build(f, 0, Leftover::None);
+            for c in [Consumer::Full, Consumer::DropHead] {
+                let mut faults = vec![Fault::None, Fault::Fin(r.framed_len)];
+                if r.framed_len > r.head_len {
+                    faults.push(Fault::Fin(r.head_len + (r.framed_len - r.head_len) / 2));
+                }
+                for fault in faults {
+                    let seconds: &[(ReqKind, Interim)] = if thorough {
+                        &[(ReqKind::Get, Interim::None), (ReqKind::ExpectSized, Interim::Continue100), (ReqKind::Sized, Interim::None)]
+                    } else {
+                        &[(ReqKind::Get, Interim::None), (ReqKind::ExpectSized, Interim::Continue100)]
+                    };
+                    for &(k2, i2) in seconds {
+                        seq2b.push(Scen {
+                            group: "seq2-body".into(),
+                            reqs: vec![reqk(k, i, f, c, fault), reqk(k2, i2, Framing::Cl5, Consumer::Full, Fault::None)],
+                            concurrent: false,
+                            limit: 1,
+                            every_offset: false,
+                            alts: true,
+                        });
+                    }
+                }
+            }
+        }
+    }
+    add_group(
+        "seq2-body",
+        "2 sequential requests, limit 1; first: {Expect sized/chunked x (100 then final | final at once), sized, chunked, GET+103, GET+100, POST+103} x {cl5, chunked, cl5+close, cl0, 204, 426+upgrade} x {read fully, dropped after head} x {open, FIN after the response, FIN mid-body}; second: GET | Expect POST, cl5, read fully",
+        seq2b,
+        if thorough { 2 } else { 1 },
+        &mut scs,
+        &mut bounds,
+    );
+
     // ---- seq2: reuse decisions ----------------------------------------------------------------
     let mut seq2 = Vec::new();
     let seconds: &[Framing] = if thorough { &[Framing::Cl5, Framing::Chunked, Framing::Head, Framing::Cl0] } else { &[Framing::Cl5, Framing::Chunked, Framing::Head] };
@@ -228,7 +369,7 @@ pub fn enumerate(thorough: bool) -> (Vec<Scen>, Vec<u32>, Value) {
     }
     add_group(
         "seq2",
-        "2 sequential requests to one authority, limit 1; first: 16 framings x {body(), stream, dropped after head, partial then dropped} x {open, FIN/reset after the complete response, FIN mid-body / 1 before end / at head end / in head} x leftover {none, junk, stale response}; second: cl5 | chunked | HEAD read fully",
+        "2 sequential requests to one authority, limit 1; first: 18 framings x {body(), stream, dropped after head, partial then dropped} x {open, FIN/reset after the complete response, FIN mid-body / 1 before end / at head end / in head} x leftover {none, junk, stale response}; second: cl5 | chunked | HEAD read fully",
         seq2,
         if thorough { 3 } else { 2 },
         &mut scs,
